@@ -1,7 +1,7 @@
 #!/bin/bash
 # run every seeded change against the check of the property it breaks; writes /verif/.build/matrix.tsv
 out=/verif/.build/${MATRIX_OUT:-matrix.tsv}; : > $out
-for d in /verif/seeded/${MATRIX_GLOB:-C*-m*}; do
+for d in ${MATRIX_DIR:-/verif/seeded}/${MATRIX_GLOB:-C*-m*}; do
   name=$(basename $d); pid=${name%%-*}
   patch=$d/patch.diff; [ -f $d/patch_rebased.diff ] && patch=$d/patch_rebased.diff
   s=$(date +%s)
